@@ -7,7 +7,7 @@ use rand::Rng;
 use serde_json::json;
 use std::path::Path;
 
-const POOL: [&str; 9] = ["t/a.txt", "t/b.txt", "t/c.bin", "t/d/e.txt", "t/d/f.bin", "t/d/g/h.txt", "t/x y.txt", "t/ü.dat", "u/n1.txt"];
+const POOL: [&str; 14] = ["t/a.txt", "t/b.txt", "t/c.bin", "t/d/e.txt", "t/d/f.bin", "t/d/g/h.txt", "t/x y.txt", "t/ü.dat", "t/d.txt", "t/d-old/z.txt", "t/d/g.txt", "t/lib/a", "t/lib-old/b", "u/n1.txt"];
 
 fn body(content: &[u8]) -> String {
     hexw(crate::canon::digest(content).as_bytes())
@@ -37,6 +37,18 @@ fn read_state(sbx: &Sbx, base: &str) -> Result<Vec<LEntry>, String> {
         if parts.is_empty() { return Err("archive missing".into()); }
     }
     read_logical(&parts, None).map(|v| flat(&v)).map_err(|e| format!("unreadable: {e}"))
+}
+
+/// C14 on whatever is on disk now: the single file, or the part chain starting at part 1
+fn strict_state(sbx: &Sbx) -> Result<(), String> {
+    if let Ok(b) = std::fs::read(sbx.path("a.pna")) {
+        return crate::refdec::strict_archive(&b, vec![], false).map(|_| ());
+    }
+    let mut parts = vec![];
+    for i in 1.. {
+        match std::fs::read(sbx.path(&format!("a.part{i}.pna"))) { Ok(b) => parts.push(b), Err(_) => break }
+    }
+    crate::refdec::strict_parts(&parts).map(|_| ())
 }
 
 fn state_pairs(es: &[LEntry]) -> Vec<(String, String)> {
@@ -73,7 +85,7 @@ pub fn history(ctx: &mut Ctx) {
         for _ in 0..k { let i = rng.gen_range(0..pool.len() - 1); let f = pool.remove(i); write(f, &mut rng, &mut clock); }
         std::fs::create_dir_all(root.join("t")).unwrap();
         let keep_ts = rng.gen_bool(0.5);
-        let split = rng.gen_bool(0.2);
+        let split = case % 4 == 0 || rng.gen_bool(0.15);
         let solid = !split && rng.gen_bool(0.2);
         let mut args: Vec<String> = vec!["--quiet".into(), "create".into(), "a.pna".into(), "-r".into(), "t".into(), "--overwrite".into()];
         if keep_ts { args.push("--keep-timestamp".into()); }
@@ -83,13 +95,35 @@ pub fn history(ctx: &mut Ctx) {
         let r = run_pna(&sbx, &sbx.root, &argv, None, 60, &[]);
         let desc0 = json!({"create": args});
         if !r.ok() { ctx.violation("C11", "create failed", json!({"case":desc0,"run":r.brief()})); continue; }
+        if let Err(why) = strict_state(&sbx) { ctx.violation("C14", "`pna create` wrote an archive that is not well-formed", json!({"case":desc0,"why":why})); }
         let mut state = match read_state(&sbx, "a.pna") { Ok(s) => s, Err(e) => { ctx.violation("C11", "archive unreadable after create", json!({"case":desc0,"why":e})); continue; } };
         let mut steps: Vec<serde_json::Value> = vec![desc0];
-        let archive_arg = if sbx.path("a.pna").exists() { "a.pna" } else { "a.part1.pna" };
+        let mut archive_arg = if sbx.path("a.pna").exists() { "a.pna" } else { "a.part1.pna" };
         let nsteps = rng.gen_range(2..7);
         for _ in 0..nsteps {
             let before = state_pairs(&state);
-            let op = rng.gen_range(0..10);
+            let op = if split && steps.len() == 1 { 0 } else { rng.gen_range(0..11) };
+            if op == 10 {
+                // ---- re-create over the existing output with --overwrite, from a (usually smaller) tree
+                for f in before.iter().map(|(n, _)| n.clone()).collect::<Vec<_>>() { if rng.gen_bool(0.5) { let _ = std::fs::remove_file(root.join(&f)); } }
+                let mut a: Vec<String> = vec!["--quiet".into(), "create".into(), "a.pna".into(), "-r".into(), "t".into(), "--overwrite".into()];
+                if keep_ts { a.push("--keep-timestamp".into()); }
+                let resplit = archive_arg != "a.pna";
+                if resplit { a.push("--split".into()); a.push("150".into()); }
+                let argv: Vec<&str> = a.iter().map(|s| s.as_str()).collect();
+                let r = run_pna(&sbx, &sbx.root, &argv, None, 60, &[]);
+                steps.push(json!({"argv": a}));
+                ctx.count("op:recreate");
+                ctx.oracle_eval();
+                if r.crashed() || r.hung() { ctx.violation("C07", "command crashed or hung", json!({"history":steps,"run":r.brief()})); break; }
+                if !r.ok() { ctx.violation("C11", "re-creating over an existing archive with --overwrite failed", json!({"history":steps,"run":r.brief()})); break; }
+                if let Err(why) = strict_state(&sbx) { ctx.violation("C14", "a command wrote an archive that is not well-formed", json!({"history":steps,"why":why})); }
+                state = match read_state(&sbx, "a.pna") { Ok(s) => s, Err(e) => { ctx.violation("C11", "archive unreadable after re-creating it", json!({"history":steps,"why":e})); break; } };
+                let expect = portable_network_archive::verif::collect_items(&[root.join("t").to_string_lossy().to_string()], true, false).unwrap();
+                let want: Vec<(String, String)> = expect.iter().map(|p| (Path::new(p).strip_prefix(&root).unwrap().to_string_lossy().to_string(), body(&std::fs::read(p).unwrap()))).collect();
+                if state_pairs(&state) != want { ctx.violation("C11", "a re-created archive does not hold exactly the current tree", json!({"history":steps,"after":state_pairs(&state),"tree":want})); }
+                continue;
+            }
             let (model_req, argv_s): (String, Vec<String>);
             let mut oracle: Option<Box<dyn Fn(&[(String, String)], &[(String, String)]) -> Option<String>>> = None;
             if op < 3 {
@@ -167,13 +201,13 @@ pub fn history(ctx: &mut Ctx) {
             // after update/delete the result is a single archive at the part-less path
             state = match read_state(&sbx, "a.pna") { Ok(s) => s, Err(e) => { ctx.violation("C11", "archive unreadable after a step", json!({"history":steps,"why":e})); break; } };
             let after = state_pairs(&state);
-            // C14: what the command wrote is well-formed for the independent reader
-            if let Ok(b) = std::fs::read(sbx.path("a.pna")) {
-                if let Err(why) = crate::refdec::strict_archive(&b, vec![], false) { ctx.violation("C14", "a command wrote an archive that is not well-formed", json!({"history":steps,"why":why})); }
-            }
+            // C14: what the command wrote (single file or part chain) is well-formed for the independent reader
+            if let Err(why) = strict_state(&sbx) { ctx.violation("C14", "a command wrote an archive that is not well-formed", json!({"history":steps,"why":why})); }
             if let Some(o) = &oracle { if let Some(why) = o(&before, &after) { ctx.violation("C11", &why, json!({"history":steps,"before":before,"after":after})); } }
             ctx.case(json!({"step":steps.len(),"split":split,"solid":solid}), model_req, format!("ok {}", uwire(&after)), true);
-            if sbx.path("a.pna").exists() && archive_arg != "a.pna" { break; } // part set replaced by a single file: stop this history here
+            // a part set replaced by a single file: the history goes on with that file; the old part files stay
+            // beside it (stale), as they do for a user
+            if sbx.path("a.pna").exists() && archive_arg != "a.pna" { archive_arg = "a.pna"; ctx.count("stale-parts-beside-archive"); }
         }
     }
 }
